@@ -216,15 +216,15 @@ func c06TokenSoup(r *Rng) string {
 
 var c06Kw = map[string]string{"(EOL)": "eol", "(LET)": "let", "(EQ)": "eq", "(IF)": "if", "(THEN)": "then", "(ELSE)": "else",
 	"(ELIF)": "elif", "(MATCH)": "match", "(WITH)": "with", "(BAR)": "bar", "(RARROW)": "arrow", "(FUN)": "fun",
-	"(LPAREN)": "lp", "(RPAREN)": "rp", "(COMMA)": "comma", "(UNDER_SCORE)": "us", "(TYPE)": "type"}
+	"(LPAREN)": "lp", "(RPAREN)": "rp", "(COMMA)": "comma", "(UNDER_SCORE)": "us", "(TYPE)": "type",
+	"(DOT)": "dot", "(LBRACE)": "lb", "(RBRACE)": "rb", "(LSBRACKET)": "ls", "(RSBRACKET)": "rs", "(SEMICOLON)": "semi"}
 var c06Ops = map[string]bool{"(PIPE)": true, "(AMPAMP)": true, "(BARBAR)": true, "(GT)": true, "(LT)": true, "(GE)": true,
-	"(LE)": true, "(BRACKET)": true, "(PLUS)": true, "(MINUS)": true, "(ASTER)": true, "(SLASH)": true}
-var c06Root = map[string]bool{"(PACKAGE)": true, "(IMPORT)": true, "(PACKAGE_INFO)": true, "(AND)": true}
-var c06Sep = map[string]bool{"(SEMICOLON)": true, "(RBRACE)": true, "(RSBRACKET)": true}
+												"(LE)": true, "(BRACKET)": true, "(PLUS)": true, "(MINUS)": true, "(ASTER)": true, "(SLASH)": true}
+var c06Root = map[string]int{"(PACKAGE_INFO)": 0, "(PACKAGE)": 1, "(IMPORT)": 2, "(AND)": 3} // Layout.is_pkginfo: 0
 
 // c06ModelToks abstracts the real token stream (with the tokenizer's tracked columns) to the model's
-// token language: layout keywords are kept; a '{...}' or '[...]' group and a type-argument list glued to
-// an identifier become (part of) one atom; every other token is an atom identified by its text.
+// token language: layout keywords, brackets, braces, '.', ';' and ',' are kept; a type-argument list glued
+// to an identifier becomes part of that atom; every other token is an atom identified by its text.
 func c06ModelToks(src string, toks []srvTok, intern map[string]int) string {
 	id := func(s string) int {
 		if v, ok := intern[s]; ok {
@@ -247,34 +247,6 @@ func c06ModelToks(src string, toks []srvTok, intern map[string]int) string {
 			continue
 		}
 		switch {
-		case t.Type == "(LBRACE)" || t.Type == "(LSBRACKET)":
-			depth := 0
-			j := i
-			var parts []string
-			for ; j < len(toks); j++ {
-				tj := toks[j]
-				if tj.Type == "(EOF)" {
-					break
-				}
-				if tj.Type == "(LBRACE)" || tj.Type == "(LSBRACKET)" {
-					depth++
-				}
-				if tj.Type == "(RBRACE)" || tj.Type == "(RSBRACKET)" {
-					depth--
-				}
-				if tj.Type != "(EOL)" {
-					parts = append(parts, text(tj))
-				}
-				if depth == 0 {
-					break
-				}
-			}
-			if depth != 0 {
-				fmt.Fprintf(&b, " (a %d %d)", id(text(t)), t.Col)
-				continue
-			}
-			fmt.Fprintf(&b, " (a %d %d)", id(strings.Join(parts, " ")), t.Col)
-			i = j
 		case t.Type == "(LT)" && i > 0 && toks[i-1].Type == "(IDENTIFIER)" && toks[i-1].Begin+toks[i-1].Len == t.Begin:
 			// type arguments: f<int> (isNeighborLT); part of the preceding atom
 			depth := 0
@@ -300,10 +272,8 @@ func c06ModelToks(src string, toks []srvTok, intern map[string]int) string {
 			}
 		case c06Ops[t.Type]:
 			fmt.Fprintf(&b, " (op %d %d)", id(t.Type), t.Col)
-		case c06Root[t.Type]:
-			fmt.Fprintf(&b, " (kw %d %d)", id(t.Type), t.Col)
-		case c06Sep[t.Type]:
-			fmt.Fprintf(&b, " (sep %d %d)", id(t.Type), t.Col)
+		case t.Type == "(PACKAGE_INFO)" || t.Type == "(PACKAGE)" || t.Type == "(IMPORT)" || t.Type == "(AND)":
+			fmt.Fprintf(&b, " (kw %d %d)", c06Root[t.Type], t.Col)
 		case t.Type == "(STRING)":
 			fmt.Fprintf(&b, " (s %d %d)", id("S:"+text(t)), t.Col)
 		default:
@@ -480,12 +450,25 @@ func runC06(c *Ctx) {
 	c.Res.Extra["model_covered_programs"] = len(progs) - modelUncovered
 
 	// ---- the package_info file is laid out by the same rule
+	foiTree, foiIntern := "", map[string]int{}
 	for k := 0; k < c.Pick(6, 60); k++ {
 		cs := cases[rng.Intn(len(cases))]
 		if cs == nil || cs.Out == "" {
 			continue
 		}
 		foi := c06FoiLayout(rng)
+		if foiTree == "" {
+			foiTree = h.modelTree(c06MiniFoi, foiIntern)
+			if !strings.HasPrefix(foiTree, "TREE ") {
+				panic("model parser does not cover the package_info file: " + foiTree)
+			}
+		}
+		if t := h.modelTree(foi, foiIntern); t != foiTree {
+			c.Disagree()
+			c.Violate("corr-blocks", "the model parser recovers a different structure from a re-laid-out package_info file: "+c06Brief(t),
+				map[string]any{"foi": foi, "canonical_tree": foiTree, "layout_tree": t}, true)
+		}
+		c.Compared(1)
 		r := h.transpileFoi(foi, cs.Canon)
 		out, ok := c06Out(r)
 		c.Eval(foi, true)
